@@ -1140,21 +1140,23 @@ class UserActions(object):
     # i.e. not formula columns that don't allow setting values.
     # `col_values` is not checked for this because setting such a column there should raise an error
     # This doesn't apply to `require` since it's also used to match existing records.
-    require_add_keys = {
+    # (Lists rather than sets, so that the columns of the actions below come in a fixed order.)
+    require_add_keys = [
       key for key in require
       if not (
           table.get_column(key).is_formula() and
           # Check that there actually is a formula and this isn't just an empty column
           self._engine.docmodel.get_column_rec(table_id, key).formula
       )
-    }
-    col_keys = set(col_values.keys())
+    ]
+    col_keys = list(col_values.keys())
 
     # Arguments for `BulkAddRecord` and `BulkUpdateRecord` below
     add_record_ids = []
-    add_record_values = {k: [] for k in col_keys | require_add_keys - {'id'}}
+    add_record_values = {k: [] for k in col_keys +
+                         [k for k in require_add_keys if k != 'id' and k not in col_values]}
     update_record_ids = []
-    update_record_values = {k: [] for k in col_keys - {'id'}}
+    update_record_values = {k: [] for k in col_keys if k != 'id'}
 
     # Need a placeholder array so the values can be set by index later.
     result['recordIds'] = [[] for i in range(length)]
